@@ -416,6 +416,9 @@ func TestC05Reconnect(t *testing.T) {
 			s.SlowHandler = []string{"disconnected", "reconnected"}[c.Rng.Intn(2)]
 			s.SlowHandlerMs = []int{300, 3000, 10000}[c.Rng.Intn(3)]
 		}
+		if c.Rng.Intn(4) == 0 {
+			s.CloseFails = "broken" // closing a transport whose link is already broken reports an error
+		}
 		return runCase(c, s, Judge)
 	})
 }
